@@ -169,6 +169,10 @@ func LoadRulesOfResource(res string, rules []*Rule) (bool, error) {
 	defer updateRuleMux.Unlock()
 	// clear resource rules
 	if len(rules) == 0 {
+		if _, exists := currentRules[res]; !exists {
+			// nothing is loaded for the resource: clearing it again is not a change
+			return false, nil
+		}
 		// clear resource's currentRules
 		delete(currentRules, res)
 		// clear breakers & breakerRules
